@@ -4,6 +4,7 @@ import (
 	"bytes"
 	"encoding/json"
 	"fmt"
+	"math"
 	"net"
 	"os"
 	"os/exec"
@@ -680,6 +681,26 @@ func init() {
 				c.users = []replySpec{frameReply(c.replyMs)}
 				c.args = append(c.args, "-output", f, c.reqText)
 				add(c)
+			}
+		}
+		// measurements that are "not a number" or infinite, at top level and nested, in every format: the run ends in one of
+		// the two allowed ways (one JSON document and status 0, or a message and a non-zero status)
+		for _, fv := range []float64{math.NaN(), math.Inf(1), math.Inf(-1)} {
+			for _, f := range []string{"json", "jsonsimple", "jsonmerged"} {
+				for _, nested := range []bool{false, true} {
+					c := base(fmt.Sprintf("non-finite float %v nested=%v", fv, nested))
+					c.format, c.anyOutcome = f, true
+					mkReq(c, 2, true)
+					m1 := rscp.Message{Tag: rscp.EMS_POWER_PV, DataType: rscp.Double64, Value: fv}
+					m2 := rscp.Message{Tag: rscp.BAT_RSOC, DataType: rscp.Float32, Value: float32(fv)}
+					c.replyMs = []rscp.Message{m1, m2}
+					if nested {
+						c.replyMs = []rscp.Message{{Tag: rscp.BAT_DATA, DataType: rscp.Container, Value: []rscp.Message{m1, m2}}, m2}
+					}
+					c.users = []replySpec{frameReply(c.replyMs)}
+					c.args = append(c.args, "-output", f, c.reqText)
+					add(c)
+				}
 			}
 		}
 		// the same tag twice on one level, for every data type (and a container), in every format
